@@ -549,7 +549,13 @@ def case_binary_complex(ctx, rng, tier, op, combo):
         if kind == 'CObs':
             return pf.cobs()
         if kind == 'complex':
-            return complex(float(rng.uniform(0.5, 2.0)) * rng.choice([-1, 1]), float(rng.uniform(0.5, 2.0)) * rng.choice([-1, 1]))
+            z = complex(float(rng.uniform(0.5, 2.0)) * rng.choice([-1, 1]), float(rng.uniform(0.5, 2.0)) * rng.choice([-1, 1]))
+            u = rng.random()
+            if u < 0.15:
+                z = complex(z.real, 0.0)        # complex number on the real axis
+            elif u < 0.25:
+                z = complex(0.0, z.imag)        # purely imaginary
+            return z
         if kind == 'int':
             return int(rng.choice([-3, -2, 2, 3]))
         return float(rng.uniform(0.5, 3.0)) * float(rng.choice([-1, 1]))
